@@ -102,7 +102,7 @@ func (m *Machine) callAsm(fn *ssa.Function, args []Value, call ssa.Instruction, 
 			if a.store {
 				kind = "store"
 			}
-			m.reportSite("assert", fmt.Sprintf("%s @asm_x86.s:%d", fn.Name(), a.line), fmt.Sprintf("assert: asm %s outside %s", kind, a.region), fmt.Sprintf("assembly %s of %d bytes at offset %d is outside its %d-byte region (%s, asm_x86.s:%d)", kind, a.width, a.off, n, a.region, a.line), nil)
+			m.reportSite("asm-oob", fmt.Sprintf("%s @asm_x86.s:%d", fn.Name(), a.line), fmt.Sprintf("asm-oob: %s %s outside %s", fn.Name(), kind, regionName(fn, a.region)), fmt.Sprintf("assembly %s outside the %s slice (asm_x86.s:%d)", kind, regionName(fn, a.region), a.line), nil)
 		}
 		if a.align > 0 && a.off%int64(a.align) != 0 {
 			m.asmNotes = append(m.asmNotes, fmt.Sprintf("aligned store at offset %d (asm_x86.s:%d) requires the slice base to be %d-byte aligned", a.off, a.line, a.align))
@@ -142,4 +142,12 @@ func (m *Machine) callAsm(fn *ssa.Function, args []Value, call ssa.Instruction, 
 	}
 	m.finishCall(call, res, isDefer)
 	return true
+}
+
+func regionName(fn *ssa.Function, region string) string {
+	var i int
+	if _, err := fmt.Sscanf(region, "arg%d", &i); err == nil && i < fn.Signature.Params().Len() {
+		return fn.Signature.Params().At(i).Name()
+	}
+	return region
 }
